@@ -431,7 +431,10 @@ FOLLOWERS = ["", "(", "1", "_", "x", "0x", " ", "\n", "\r", "\t", "#c", "#c\n", 
 def model_keywords(env):
     """The multi-word keywords of the regenerated table (GenLexer.multi_table through the extracted model)."""
     outp = os.path.join(env.work, "keywords.txt")
-    rc, out = common.sh([common.NSMODEL, "layout-keywords", outp], timeout=60)
+    try:
+        rc, out = common.sh([common.NSMODEL, "layout-keywords", outp], timeout=60)
+    except OSError:
+        return None
     if rc != 0 or not os.path.exists(outp):
         return None
     kws = []
